@@ -319,7 +319,7 @@ impl<'i, R: RuleType> Pairs<'i, R> {
             pair.input,
             Some(pair.line_index),
             pair.start,
-            end,
+            end + 1,
         )
     }
 }
